@@ -1,3 +1,101 @@
 (* C19  Compaction and cloning preserve everything reachable.
-   Only statements, [exact] and [Print Assumptions] live here. (under construction) *)
-From GV Require Import Model.Optimize Spec.HeapIso.
+   Only statements, [exact] and [Print Assumptions] live here.
+
+   Vocabulary (coq/Spec/HeapIso.v, coq/Model/Optimize.v):
+     [Reads h a t]     the structure reachable from address [a] of data block [h] is the tree [t]
+                       (labels with every address erased; covers values, list item/association slots,
+                       text cells, and the Register/Value/Frame cells the stacks are made of, so the
+                       read-back of a stack is a function of the tree at its head: regs_of, vals_of,
+                       frames_of);
+     [Maps s s' a a']  whatever is read at [a] in [s] is read at [a'] in [s'];
+     [closed_prefix s] what is read below the retention count is read inside the retained prefix
+                       (no value straddles the boundary, no retained cell points above it).
+   The theorems are about the executable model of optimize / clone_data, for every store and every
+   outcome [Ok]; whether the call succeeds is not part of them (see C19_K1_refuted). *)
+From Coq Require Import NArith List Arith.
+From GV Require Import Base.Result Model.Optimize Spec.HeapIso Proofs.C19.Base Proofs.C19.StoreLemmas
+  Proofs.C19.CloneData Proofs.C19.OptimizeProof Proofs.C19.Reader Proofs.C19.Examples.
+Import ListNotations.
+
+(* clone_data: the result reads as the argument did, and the original is intact: no cell below the
+   old cursor changed, so every address reads as before; stack heads, symbol table and retention
+   count are untouched *)
+Theorem C19_clone : forall s a s' a', clone_data s a = Ok (s', a') ->
+  (forall t, Reads (cells s) a t -> Reads (cells s') a' t) /\
+  firstn (length (cells s)) (cells s') = cells s /\
+  (forall b t, Reads (cells s) b t -> Reads (cells s') b t) /\
+  same_meta s s'.
+Proof. exact clone_data_correct. Qed.
+Print Assumptions C19_clone.
+
+(* optimize: extra roots through the returned mapping, the three stacks through the new heads, the
+   symbol table entry by entry, the retained prefix in place *)
+Theorem C19_optimize : forall s roots s' m, optimize s roots = Ok (s', m) ->
+  retention s <= length (cells s) -> closed_prefix s ->
+  length m = length roots /\
+  (forall i r, nth_error roots i = Some r -> exists r', nth_error m i = Some r' /\ Maps s s' r r') /\
+  head_preserved s s' (cur_register s) (cur_register s') /\
+  head_preserved s s' (cur_value s) (cur_value s') /\
+  head_preserved s s' (cur_frame s) (cur_frame s') /\
+  length (symtab s') = length (symtab s) /\
+  (forall i sym idx, nth_error (symtab s) i = Some (sym, idx) ->
+     exists idx', nth_error (symtab s') i = Some (sym, idx') /\ Maps s s' idx idx') /\
+  retention s' = retention s /\
+  firstn (retention s) (cells s') = firstn (retention s) (cells s) /\
+  (forall b, b < retention s -> Maps s s' b b).
+Proof. exact optimize_correct. Qed.
+Print Assumptions C19_optimize.
+
+(* the executable reader of the spec computes exactly the relation the theorems speak of *)
+Theorem C19_reader_sound : forall n h a t, read_f n h a = Some t -> Reads h a t.
+Proof. exact read_f_sound. Qed.
+Print Assumptions C19_reader_sound.
+
+Theorem C19_reader_complete : forall h a t, Reads h a t -> exists n, forall m, n <= m -> read_f m h a = Some t.
+Proof. exact read_f_complete. Qed.
+Print Assumptions C19_reader_complete.
+
+(* non-vacuity: concrete stores meet the hypotheses, the calls succeed and move things *)
+Example C19_ex_optimize : exists s', optimize ex_store [2; 10] = Ok (s', [3; 0]) /\
+  length (cells s') = 15 /\ cur_register s' = Some 9 /\ cur_frame s' = Some 11 /\ cur_value s' = Some 12 /\
+  symtab s' = [(5%N, 13)] /\
+  read_any (cells s') 6 = Some ex_list_tree /\
+  read_any (cells s') 11 = read_any (cells ex_store) 13 /\
+  read_any (cells s') 13 = read_any (cells ex_store) 8.
+Proof. exact ex_store_optimize. Qed.
+
+Example C19_ex_hyps : retention ex_store <= length (cells ex_store) /\ closed_prefix ex_store /\
+  retention ex_ret <= length (cells ex_ret) /\ closed_prefix ex_ret /\
+  Reads (cells ex_store) 5 ex_list_tree.
+Proof.
+  exact (conj (proj1 ex_store_hyps) (conj (proj2 ex_store_hyps)
+        (conj (proj1 ex_ret_hyps) (conj (proj2 ex_ret_hyps) (proj1 ex_store_reads))))).
+Qed.
+
+Example C19_ex_retained : exists s', optimize ex_ret [3; 4] = Ok (s', [4; 3]) /\
+  firstn 3 (cells s') = firstn 3 (cells ex_ret) /\ read_any (cells s') 4 = read_any (cells ex_ret) 3.
+Proof. exact ex_ret_optimize. Qed.
+
+Example C19_ex_clone : exists s', clone_data ex_store 5 = Ok (s', 26) /\
+  read_any (cells s') 26 = Some ex_list_tree /\ firstn 15 (cells s') = cells ex_store.
+Proof. exact ex_store_clone. Qed.
+
+(* finding C19-K1: success is not guaranteed on a well-formed store -- a ten-cell block with shared
+   sub-values makes both calls fail with CloneLimitReached *)
+Theorem C19_K1_refuted : (exists t, Reads (cells k1_store) 9 t) /\ closed_prefix k1_store /\
+  optimize k1_store [] = Err E_CloneLimit /\ clone_data k1_store 8 = Err E_CloneLimit.
+Proof. exact k1_store_fails. Qed.
+Print Assumptions C19_K1_refuted.
+
+(* not proved (kept visible): the calls succeed on every well-formed store outside C19-K1 whose block
+   may still grow, and the runtime's step relation commutes with optimize (no runtime model here; the
+   check injects optimize at every step boundary of generated programs instead) *)
+Definition Known_C19_K1 (s : store) (roots : list nat) : Prop := optimize s roots = Err E_CloneLimit.
+Definition C19_success_statement : Prop :=
+  forall s roots,
+    maxitems s = None -> retention s <= length (cells s) -> closed_prefix s ->
+    (forall r, In r (roots ++ opt_list (cur_register s) ++ opt_list (cur_value s) ++ opt_list (cur_frame s)
+                       ++ map snd (symtab s)) -> exists t, Reads (cells s) r t) ->
+    (match strat s with Fixed n => 0 < n | Mult n => 1 < n /\ 0 < dsize s end) ->
+    ~ Known_C19_K1 s roots ->
+    exists s' m, optimize s roots = Ok (s', m).
